@@ -221,3 +221,57 @@ pub fn c10_random(req: &J) -> J {
     // kept for interface stability: the differential run lives in the check's translation validation
     json!({"ok": true, "cases": 0, "seed": req["seed"].clone()})
 }
+
+// ---- C11 -------------------------------------------------------------------------------------------------------------
+
+fn program_of(j: &J) -> Vec<OpCode> {
+    j.as_array().unwrap().iter().map(|i| {
+        let args: Vec<String> = i["args"].as_array().unwrap().iter().map(|a| a.as_str().unwrap().to_string()).collect();
+        opcode_of(i["variant"].as_str().unwrap(), &args).expect("variant")
+    }).collect()
+}
+
+pub fn c11_weight(req: &J) -> J {
+    let ops = program_of(&req["program"]);
+    match catch_unwind(AssertUnwindSafe(|| melvm::opcode::opcodes_weight(&ops))) {
+        Ok(w) => json!({"panicked": false, "weight": w.to_string()}),
+        Err(_) => json!({"panicked": true, "msg": crate::last_panic()}),
+    }
+}
+
+pub fn c11_steps(req: &J) -> J {
+    let ops = program_of(&req["program"]);
+    let r = catch_unwind(AssertUnwindSafe(|| {
+        let w = melvm::opcode::opcodes_weight(&ops);
+        let n = ops.len();
+        let mut ex = melvm::verif_hooks::Executor::new(ops, Default::default());
+        ex.stack = vec![melvm::Value::Int(5u8.into())];
+        let mut steps: u128 = 0;
+        while ex.pc() < n && steps <= w.saturating_add(10).min(10_000_000) {
+            steps += 1;
+            if ex.step().is_none() { break; }
+        }
+        (w, steps)
+    }));
+    match r {
+        Ok((w, s)) => json!({"panicked": false, "weight": w.to_string(), "steps": s.to_string()}),
+        Err(_) => json!({"panicked": true, "msg": crate::last_panic()}),
+    }
+}
+
+pub fn c11_weigh_time(req: &J) -> J {
+    let depth = req["depth"].as_u64().unwrap_or(20) as u16;
+    let time_for = |d: u16| {
+        let mut ops = vec![];
+        for k in 0..d { ops.push(OpCode::Loop(2, d - k)); }
+        ops.push(OpCode::Noop);
+        let bytes = Covenant::from_ops(&ops).to_bytes();
+        let t0 = std::time::Instant::now();
+        let w = melvm::covenant_weight_from_bytes(&bytes);
+        (t0.elapsed().as_secs_f64(), bytes.len(), w)
+    };
+    let (t1, len1, _) = time_for(depth);
+    let (t2, len2, _) = time_for(depth + 4);
+    json!({"depth": depth, "bytes": len1, "seconds": t1, "depth_plus_4_bytes": len2, "depth_plus_4_seconds": t2,
+           "ratio_depth_plus_4": if t1 > 0.0 { t2 / t1 } else { 0.0 }})
+}
